@@ -16,11 +16,15 @@ pub fn exec(run: u64, prog: &Value, out: &mut Out) {
     out.emit(json!({"ev":"reset","run":run,"raw":r,"value":v,"panic":false}));
     for op in list(prog, "ops") {
         let name = str_of(get(op, "op"));
-        if name == "append_fill" || name == "delete_fill" {
+        if name == "append_fill" || name == "delete_fill" || name == "sink_vec_fill" {
             let n = u64_of(get(op, "n")) as usize;
             let b = u8_of(get(op, "b"));
             let data = vec![b; n];
-            let res = guarded(|| if name == "append_fill" { c.append(&data) } else { c.delete(&data) });
+            let res = guarded(|| match name {
+                "append_fill" => c.append(&data),
+                "delete_fill" => c.delete(&data),
+                _ => AmlSink::vec(&mut c, &data),
+            });
             let (r, v) = obs(&c);
             out.emit(json!({"ev":name,"run":run,"n":n as u64,"b":b,"raw":r,"value":v,"panic":res.is_err()}));
             continue;
